@@ -9,6 +9,7 @@ use crate::util::{self, Out, Rng};
 use crate::Args;
 
 pub mod addr;
+pub mod life;
 pub mod smoke;
 
 /// What a case reports when it ends.
@@ -217,6 +218,7 @@ pub fn run(a: &Args) -> i32 {
     match a.comp.as_str() {
         "smoke" => smoke::run(a),
         "addr" => run_comp(a, &mut addr::AddrComp),
+        "life" => run_comp(a, &mut life::LifeComp),
         other => {
             eprintln!("unknown component {other}");
             2
